@@ -108,7 +108,10 @@ def conditions(tier):
     for i, (st, steps) in enumerate(chains):
         nm = 'chain_s%d_%s' % (st, '_'.join(str(k) for k in steps))
         tol = (i % 2 == 0)
-        conds.append(Cond(nm, 's: str', ['len(s) <= %d' % n], 'body_chain(s, %d, %r, %r)' % (st, tuple(steps), tol),
+        nn = n
+        if quick and not any(k in (0, 1, 5, 6, 12, 13, 15, 16) for k in steps):
+            nn = 1      # chains that do not touch math mode or delimiter lists: length <= 1 in the quick tier
+        conds.append(Cond(nm, 's: str', ['len(s) <= %d' % nn], 'body_chain(s, %d, %r, %r)' % (st, tuple(steps), tol),
                           timeout=T, smoke=SM, twin=False,
                           descr='start %r, sub_context steps %r' % (STARTS[st], [MENU[k] for k in steps])))
     return conds
@@ -119,8 +122,8 @@ META = dict(
                '_finalize_state_latex_math_delim_info/_finalize_state_inmathmode_info', 'LatexTokenReader (token stream under both states)'],
     bounds=dict(quick='about 100 chains of 1-2 sub_context() calls from 4 start states over a menu of 17 field changes (math mode and delimiter, '
                       'group / inline / display delimiter lists with changed closers, enable_* flags, escape and comment characters, '
-                      'forbidden characters); compared on the token stream of every Unicode string of length <= 2, strict and tolerant '
-                      'alternating',
+                      'forbidden characters); compared on the token stream of every Unicode string of length <= 2 (<= 1 for chains that touch neither math '
+                      'mode nor delimiter lists), strict and tolerant alternating',
                 thorough='all ordered pairs of menu entries plus 168 chains of 3 calls; strings of length <= 3'),
     stubs=['logging disabled'],
     outside=['chains longer than 3', 'field values outside the menu', 'comparison of full parses (token streams only)'],
